@@ -48,10 +48,20 @@ Definition min_t1 : Z := Z.of_N gf_min_t1_ns.
 Definition panic_reset : Z := Z.of_N gf_panic_reset_ns.
 Definition arp_wait : Z := Z.of_N gf_arp_timeout_ns.
 
-(* runStateBound: time.Duration(float64(lease) * 0.5) and * 0.875 are exact for whole seconds below 2^53 ns;
-   server-supplied T1/T2 are used only if 60 s < T1 < T2 < lease *)
-Definition half (lease : Z) : Z := lease / 2.
-Definition seven_eighths (lease : Z) : Z := lease * 7 / 8.
+(* runStateBound: time.Duration(float64(lease) * 0.5) and time.Duration(float64(lease) * 0.875).
+   round53 n is float64(n) for n >= 0: n rounded to 53 significant bits, nearest, ties to even (a 63-bit duration is far
+   from the exponent limits).  Multiplying by 0.5 is exact; the product with 0.875 = 7/8 is the exact product rounded
+   again (scaling by a power of two does not touch the significand); the conversion back truncates.  Below 2^53 ns
+   (104 days) nothing is rounded, and a whole number of seconds below 2^32 is always representable, so for the leases a
+   DHCP server can express only T2 of leases above about 20 years is affected (by less than a microsecond).
+   Server-supplied T1/T2 are used only if 60 s < T1 < T2 < lease. *)
+Definition round53 (n : Z) : Z :=
+  let k := Z.log2 n - 52 in
+  if k <=? 0 then n
+  else let p := 2 ^ k in let q := n / p in let r := n mod p in let h := p / 2 in
+       if r <? h then q * p else if h <? r then (q + 1) * p else if Z.even q then q * p else (q + 1) * p.
+Definition half (lease : Z) : Z := round53 lease / 2.
+Definition seven_eighths (lease : Z) : Z := round53 (round53 lease * 7) / 8.
 Definition use_server_times (l : lease_info) : bool := (min_t1 <? li_t1 l) && (li_t1 l <? li_t2 l) && (li_t2 l <? li_lease l).
 Definition deadlines (now : Z) (l : lease_info) : Z * Z * Z :=
   if use_server_times l then (now + li_t1 l, now + li_t2 l, now + li_lease l)
